@@ -23,6 +23,15 @@ from .report import Finding
 from .plscheck import (Tail, NotUnderstood, report_partial, report_thresholds, clamps, exec_paths, vdot, vsame, msame, vshow, mshow, vscale, expand, ONE, ZERO, N, rel, settled)
 
 
+def show_terms(terms):
+    """readable form of the accumulated terms of a scalar: [(term, loops, node)]"""
+    out = []
+    for t in terms or []:
+        term, lps = t[0], t[1]
+        out.append('sum over %s of (%s)' % (', '.join('%s in [%s, %s)' % (str(l[0]).lstrip('@'), l[1], l[2]) for l in lps) or 'no loop', term))
+    return ' + '.join(out) or 'nothing'
+
+
 def _alloc_sizes(f, tl):
     for n in walk(f.body):
         if n.get('kind') == 'CallExpr' and callee_name(n) == 'NewDVector' and len(call_args(n)) == 2:
@@ -301,10 +310,10 @@ def variance(chk, prog, En):
     if ok and order_ok:
         chk.instance(R, '%s PCA: %s = sum_ij %s[i][j]^2 over every cell, after the preprocessing and before the first component' % (f.unit.where(seen_loop), ssn, En))
     else:
-        chk.instance(R, '%s PCA: %s is %r%s' % (f.unit.where(seen_loop), ssn, terms, '' if order_ok else ' (not between the preprocessing and the first component)'), 'refuted')
+        chk.instance(R, '%s PCA: %s is %s%s' % (f.unit.where(seen_loop), ssn, show_terms(terms), '' if order_ok else ' (not between the preprocessing and the first component)'), 'refuted')
         chk.violation(Finding('PCA.variance', rel(f.file), f.name, 'ss', f.unit.where(seen_loop),
-                              'PCA: the total sum of squares %s is accumulated as %r%s; expected the square of every cell of the preprocessed matrix, before any deflation' %
-                              (ssn, terms, '' if order_ok else ', at the wrong place')))
+                              'PCA: the total sum of squares %s is accumulated as %s%s; expected the square of every cell of the preprocessed matrix, before any deflation' %
+                              (ssn, show_terms(terms), '' if order_ok else ', at the wrong place')))
     # calcVarExpressed
     gp = [p['name'] for p in g.params]
     apps = [n for n in walk(g.body) if n.get('kind') == 'CallExpr' and callee_name(n) == 'DVectorAppend']
